@@ -66,6 +66,7 @@ func NewNet(c *Ctx, o NetOpts, label string) *Net {
 			continue
 		}
 		n := NewRealNode(w, idx, id, nil)
+		n.MonViol = func(prop, sig, what string) { c.Violation(prop, sig, what, net.replay()) }
 		net.nodes[string(id)] = n
 		net.order = append(net.order, n)
 		c.Emit(fmt.Sprintf("%d init %s %d", idx, hexid(id), o.Inst), "init")
@@ -88,6 +89,19 @@ func (net *Net) event(n *RealNode, ev string, f func() (string, string)) {
 	}
 	net.c.Emit(line, out)
 	net.history = append(net.history, line)
+	// C15: a result produced under a cancelled context must not lead to a proposal being broadcast
+	if n.reqCancelled {
+		afterReq := false
+		for _, o := range n.outs {
+			if strings.HasPrefix(o, "req:") {
+				afterReq = true
+			} else if afterReq && strings.HasPrefix(o, "send:") && (strings.Contains(o, ":PP(") || strings.Contains(o, ":NV(")) {
+				net.c.Violation("C15", "proposal-broadcast-under-cancelled-context", fmt.Sprintf("node %d broadcast a proposal obtained under a cancelled context", n.Idx), net.replay())
+			}
+		}
+		net.c.Nontrivial("c15/request-cancelled")
+	}
+	n.reqCancelled = false
 	net.steps++
 	// route what the node sent
 	for _, s := range n.newSent {
@@ -122,6 +136,10 @@ func (net *Net) deliverFlight(f *Flight) {
 }
 
 func (net *Net) timeout(n *RealNode, stale bool) {
+	if net.r.Intn(12) == 0 { // the node becomes leader by its own timeout while a trigger is handled concurrently
+		n.CancelDuring = 1 + net.r.Intn(3)
+		defer func() { n.CancelDuring = 0 }()
+	}
 	hv := n.St.HeightView()
 	h, v := uint64(hv.Height()), uint64(hv.View())
 	if stale && v > 0 {
@@ -220,7 +238,7 @@ func (net *Net) run(p SchedProfile) {
 			}
 			if n, ok := net.nodes[string(f.To)]; ok {
 				if r.Intn(1000) < p.CancelDuring {
-					n.CancelDuring = true
+					n.CancelDuring = 1 + r.Intn(3)
 				}
 				if r.Intn(1000) < p.CommitFail {
 					n.CommitCbFails = true
@@ -228,7 +246,7 @@ func (net *Net) run(p SchedProfile) {
 			}
 			net.deliverFlight(f)
 			if n, ok := net.nodes[string(f.To)]; ok {
-				n.CancelDuring, n.CommitCbFails = false, false
+				n.CancelDuring, n.CommitCbFails = 0, false
 			}
 		}
 	}
